@@ -19,8 +19,10 @@
         `visit_ClassAssign`: the constructed instance is prepended only when the target is a
         `Class` symbol — an imported class is an `Import` symbol).
 
-  The blacklist / follow-level rungs of `resolve_import` are C12's (`Imports.importAllowed`); here
-  their verdict is data (`World.ignored`), as is "the module is a key of `import_irs`".
+  The follow-level rungs of `resolve_import` are C12's (`Imports.importAllowed`); here the verdict of
+  the rungs is data (`World.ignored`), as is "the module is a key of `import_irs`".  The blacklist rung
+  itself is modelled in `RattrModel.Blacklist` (`ignoredOf` computes `World.ignored` from the pattern
+  sources; the driver does so when a request carries them).
 -/
 import RattrModel.Context
 import RattrModel.Locator
